@@ -789,7 +789,8 @@ fn sweep_monitor(r: &SweepReq) -> Vec<String> {
 
 fn json_sweep(r: &SweepReq) -> Value {
     json!({"sweep": (["delayed", "counterparty_htlc", "justice"][r.kind as usize]), "commitment_type": ctype_name(r.ctype),
-           "counterparty_selected_contest_delay": r.cp_delay, "current_height": r.height, "tx": json_tx(&r.tx),
+           "counterparty_selected_contest_delay": r.cp_delay, "current_height": r.height,
+           "current_height_source": "the harness's own count of connected minus disconnected blocks", "tx": json_tx(&r.tx),
            "input": r.input.to_string(), "redeemscript": format!("{:?}", r.rs), "redeemscript_hex": hex::encode(rs_script(&r.rs).as_bytes()),
            "wallet_path": format!("{:?}", r.path), "destinations": r.dests.iter().map(|d| format!("{:?}", d)).collect::<Vec<_>>(),
            "commitment_number": r.cn.to_string(), "next_holder_commit_num": r.nh.to_string(), "filter_rules": r.rules, "label": r.label})
@@ -879,6 +880,12 @@ struct Chan {
     node: Arc<Node>,
     channel_id: ChannelId,
     dbid: u64,
+    // `height` below is the harness's OWN count of the best-chain height: blocks it connected minus
+    // blocks it disconnected; it never reads the channel's or the tracker's idea of the height
+    /// blocks connected after the channel was created: (previous headers, previous height, proven without transactions)
+    connected: Vec<(Headers, u32, bool)>,
+    /// what moved the chain since the channel exists (for the replay)
+    chain_log: Vec<String>,
     dests: Dests,
     height: u32,
     ctype: u8,
@@ -919,7 +926,102 @@ fn make_chan(k: u64, ctype: u8, rules: &Rules, blocks: u32, hd: u16, cd: u16, nh
         Ok(())
     })
     .expect("set next_holder_commit_num");
-    Chan { node, channel_id, dbid: 1 + k, dests, height: blocks, ctype, holder_delay: hd, cp_delay: cd, nh, rules: setup_rules, min_feerate, max_feerate }
+    Chan { node, channel_id, dbid: 1 + k, connected: vec![], chain_log: vec![], dests, height: blocks, ctype, holder_delay: hd, cp_delay: cd, nh, rules: setup_rules, min_feerate, max_feerate }
+}
+
+// ------------------------------------------------------------------ moving the chain
+
+use lightning_signer::bitcoin::consensus::serialize as consensus_serialize;
+use lightning_signer::chain::tracker::Headers;
+use lightning_signer::txoo::proof::{ProofType, TxoProof};
+use lightning_signer::txoo::spv::SpvProof;
+
+/// the block on top of `prev`, proven either the way the chain follower proves a block that
+/// touches none of the signer's watches (compact filter, SPV part without transactions) or with
+/// its transactions in the SPV part
+fn block_on(prev: &Headers, prev_height: u32, unmatched: bool) -> (lightning_signer::bitcoin::block::Header, TxoProof) {
+    let (header, mut proof) = make_testnet_header(prev, prev_height);
+    if unmatched {
+        match std::mem::replace(&mut proof.proof, ProofType::ExternalBlock()) {
+            ProofType::Filter(content, _all) => proof.proof = ProofType::Filter(content, SpvProof { txs: vec![], proof: None }),
+            other => proof.proof = other,
+        }
+    }
+    (header, proof)
+}
+
+/// connect `up` blocks and disconnect `down` of the newest ones again, through the node's real
+/// tracker (its listeners attached) or as AddBlock / RemoveBlock messages; keeps the harness's
+/// own height count in `ch.height`
+fn move_chain(rng: &mut Rng, ch: &mut Chan, up: u32, down: u32, via_handler: bool) {
+    let root = if via_handler { Some(make_root_handler(&ch.node, 6)) } else { None };
+    for _ in 0..up {
+        let unmatched = rng.chance(2, 3);
+        let (prev, prev_height) = {
+            let tracker = ch.node.get_tracker();
+            (tracker.tip().clone(), tracker.height())
+        };
+        let (header, proof) = block_on(&prev, prev_height, unmatched);
+        match &root {
+            None => {
+                ch.node.get_tracker().add_block(header, proof).expect("add_block");
+            }
+            Some(h) => {
+                let m = msgs::AddBlock { header: Octets(consensus_serialize(&header)), unspent_proof: Some(msgs::DebugTxoProof(proof)) };
+                let msg = msgs::from_vec(m.as_vec()).expect("AddBlock survives the wire");
+                h.handle(msg).expect("AddBlock");
+            }
+        }
+        ch.connected.push((prev, prev_height, unmatched));
+        ch.height += 1;
+        ch.chain_log.push(format!("add({},{})", if unmatched { "filter-proof-without-txs" } else { "proof-with-txs" }, if via_handler { "AddBlock" } else { "tracker" }));
+    }
+    for _ in 0..down {
+        let (prev, prev_height, unmatched) = match ch.connected.pop() {
+            Some(x) => x,
+            None => break,
+        };
+        let (_header, proof) = block_on(&prev, prev_height, unmatched);
+        match &root {
+            None => {
+                ch.node.get_tracker().remove_block(proof, prev).expect("remove_block");
+            }
+            Some(h) => {
+                let m = msgs::RemoveBlock {
+                    unspent_proof: Some(vls_protocol::serde_bolt::LargeOctets(consensus_serialize(&proof))),
+                    prev_block_header: prev.0,
+                    prev_filter_header: prev.1,
+                };
+                let msg = msgs::from_vec(m.as_vec()).expect("RemoveBlock survives the wire");
+                h.handle(msg).expect("RemoveBlock");
+            }
+        }
+        ch.height -= 1;
+        ch.chain_log.push(format!("remove({},{})", if unmatched { "filter-proof-without-txs" } else { "proof-with-txs" }, if via_handler { "RemoveBlock" } else { "tracker" }));
+    }
+    // the tracker itself must agree with the count (a harness error otherwise, not a verdict)
+    assert_eq!(ch.node.get_tracker().height(), ch.height, "harness lost count of the chain height");
+}
+
+/// some cases move the chain first: growth, and reorganisations of depth 1..3
+fn maybe_move_chain(rng: &mut Rng, ch: &mut Chan, via_handler: bool) {
+    match rng.below(6) {
+        0 => {
+            let up = 1 + rng.below(3) as u32;
+            move_chain(rng, ch, up, up, via_handler); // a reorg back to where we were
+        }
+        1 => {
+            let up = 1 + rng.below(3) as u32;
+            let down = rng.below(up as u64 + 1) as u32;
+            move_chain(rng, ch, up, down, via_handler);
+        }
+        2 => {
+            // disconnect older blocks too (deeper than what was just connected)
+            let down = 1 + rng.below(3) as u32;
+            move_chain(rng, ch, 0, down, via_handler);
+        }
+        _ => {}
+    }
 }
 
 fn verify_sig(tx: &Transaction, input: usize, sig: &Signature, pubkey: &PublicKey, amount: u64, script: &ScriptBuf, ty: EcdsaSighashType) -> bool {
@@ -949,6 +1051,12 @@ fn sweepchan_domain(args: &Args) {
         if !pool.contains_key(&key) {
             let k = pool.len() as u64 + 1000 * (args.seed % 1000);
             pool.insert(key.clone(), make_chan(k, ctype, &sets[ri], blocks, hd, cd, 53, 253, 25_000));
+        }
+        {
+            let chm = pool.get_mut(&key).unwrap();
+            if !witness {
+                maybe_move_chain(&mut rng, chm, false);
+            }
         }
         let ch = pool.get(&key).unwrap();
         let mut r = if witness {
@@ -1017,6 +1125,7 @@ fn sweepchan_domain(args: &Args) {
         emit(
             "CASE",
             json!({"id": id, "level": "channel", "request": json_sweep(&r), "observed": obs, "monitor_violation": viol,
+                   "chain_history_of_this_channel": ch.chain_log.iter().rev().take(60).rev().collect::<Vec<_>>(),
                    "signature_verifies_for_named_input": sig_valid, "structured": r.label != "malformed",
                    "coq": coq_sweep(&r, 1, obs)}),
         );
@@ -1724,6 +1833,7 @@ fn sweephandler_domain(args: &Args) {
             let k = pool.len() as u64 + 1000 * (args.seed % 1000) + 200;
             pool.insert(key.clone(), make_chan(k, ctype, &sets[ri], blocks, hd, cd, 53, 253, 25_000));
         }
+        maybe_move_chain(&mut rng, pool.get_mut(&key).unwrap(), true);
         let ch = pool.get(&key).unwrap();
         let mut r = gen_sweep(&mut rng, &ch.dests, id, kind, ctype, hd, cd, ch.height, ch.nh);
         r.rules = ch.rules.clone();
@@ -1897,6 +2007,7 @@ fn sweephandler_domain(args: &Args) {
         }
         let mut rq = json_sweep(&rm);
         rq["glue"] = glue_json(&g);
+        rq["chain_history_of_this_channel"] = json!(ch.chain_log.iter().rev().take(60).rev().collect::<Vec<_>>());
         let origins: Vec<String> = g.psbt_outs.iter().map(|(b, t)| (b.len() + t.len()).to_string()).collect();
         let coq = format!(
             "(({}, {}, {}, {}), {})",
